@@ -9,10 +9,15 @@ C04 (static half), C01/C06 (the resolved program is their input).
         accept-vs-WF    acceptance by the real resolver vs the documented judgement `Spec.WF`     (oracle, no model)
   resolve_findings(ck)                                  witnesses of the known defects (KNOWN-FINDING lines)
   resolve_search(ck, res)                               shrink a failing program and report it
+
+`nvh resolve run` answers inside a supervised worker: a program on which the checker does not return or
+kills the process is answered `diags=? end=hang` / `diags=? end=abort:<status>` (and reported as
+`ORACLE-FAIL … [C07]`), the requests after the 4th such case `unrun`; `crashed(out)` lists them.
 """
 import glob
 import os
 import re
+import time
 
 from common import DRIVER, VERIF, MachineryError, sh
 
@@ -68,9 +73,26 @@ def mk_requests(ck, sources, exp=None):
 
 
 def default_sizes(tier):
+    # `rec`: (mutually) recursive functions returning comparisons / arithmetic of call results with
+    # literals of other types (return-type inference must terminate); kept last so that a checker
+    # that hangs on them does not leave the other streams unrun
     if tier == "quick":
-        return {"valid": 1500, "viol": 2500, "mixed": 1500}
-    return {"valid": 40000, "viol": 60000, "mixed": 40000}
+        return {"valid": 1500, "viol": 2500, "mixed": 1500, "rec": 400}
+    return {"valid": 40000, "viol": 60000, "mixed": 40000, "rec": 10000}
+
+
+def did_not_return(answer):
+    """The implementation's answer says that the checker did not come back with diagnostics or facts:
+    `… end=panic`, `panic <msg>`, `diags=? end=hang`, `diags=? end=abort:<status>` (same for `viol=?`)."""
+    a = answer.rstrip()
+    if a in ("unrun", "ast-mismatch", "bad-op"):
+        return False
+    return a.startswith("panic") or bool(re.search(r" end=(panic|hang|abort\S*)$", a))
+
+
+def crashed(out):
+    """[(request, answer)] of the `resolve` stream on which the static checker did not return."""
+    return [(r, a) for r, a in zip(out["requests"], out["resolve"]["impl_lines"]) if did_not_return(a)]
 
 
 def resolve_streams(ck, tier, sizes=None, seed_shift=0):
@@ -104,7 +126,7 @@ def resolve_streams(ck, tier, sizes=None, seed_shift=0):
     spec_dis = ck.disagreements[n_dis:]
     del ck.disagreements[n_dis:]
     for i, (a, b) in enumerate(zip(wf["impl_lines"], wf["model_lines"])):
-        if a != b and len(failures) < 400:
+        if a != b and a != "unrun" and not did_not_return(a) and len(failures) < 400:
             failures.append({"kind": "impl-vs-spec", "request": reqs[i],
                              "what": f"scoping diagnostics of the resolver: {a[:300]} ; violations by the specification: {b[:300]}"})
     ck.count("impl_vs_spec_disagreements", len(spec_dis))
@@ -113,8 +135,8 @@ def resolve_streams(ck, tier, sizes=None, seed_shift=0):
     ck.evaluations += len(reqs)
     agree = 0
     for r, impl, m in zip(reqs, res["impl_lines"], full):
-        if not impl.startswith("diags="):
-            continue
+        if not impl.startswith("diags=") or impl.startswith("diags=?"):
+            continue   # not run / no verdict (hang, abort): reported by the [C07] oracle line
         accepted = impl.startswith("diags=- ")
         wf_ok = m.startswith("wf=1")
         if exp_of(r) is None and not wf_ok and not accepted:
@@ -242,17 +264,21 @@ def _fails(ck, req, kind, what=None):
         a = sh([ck.nvh(), "resolve", "run"], inp=inp).stdout
         b = sh([DRIVER, "resolve"], inp=inp).stdout
         return a != b
+    if kind == "crash":
+        a = sh([ck.nvh(), "resolve", "run"], inp=inp, timeout=600).stdout.decode(errors="replace")
+        return did_not_return(a.splitlines()[0] if a.strip() else "panic (no answer)")
     return False
 
 
-def shrink(ck, req, kind, what=None, budget=150):
+def shrink(ck, req, kind, what=None, budget=150, budget_s=240):
     """Line-wise reduction of the program (groups of 4, 2, 1 lines), keeping the same failure."""
+    t0 = time.time()
     exp = exp_of(req)
     best_src, best_req = src_of(req), req
     if kind == "impl-vs-oracle" and what and what.startswith("violation of"):
         # the expectation names a construct of this very program: removing lines would remove it
         return best_src, best_req
-    if kind == "impl-vs-oracle" and exp != "ok":
+    if (kind == "impl-vs-oracle" and exp != "ok") or kind == "crash":
         exp = None
     lines = best_src.split("\n")
     changed = True
@@ -260,7 +286,7 @@ def shrink(ck, req, kind, what=None, budget=150):
         changed = False
         for width in (4, 2, 1):
             i = 0
-            while i < len(lines) and budget > 0:
+            while i < len(lines) and budget > 0 and time.time() - t0 < budget_s:
                 cand = lines[:i] + lines[i + width:]
                 if not cand:
                     i += 1
@@ -284,7 +310,8 @@ def resolve_search(ck, out, budget_shift=(101, 202)):
     PROPERTY fails on the implementation, shrink it, report it; otherwise report the broken tie."""
     failures = list(out["failures"])
     if not failures and (ck.broken or ck.disagreements):
-        sizes = {"valid": 8000, "viol": 12000, "mixed": 4000} if ck.tier == "quick" else {"valid": 80000, "viol": 120000, "mixed": 40000}
+        sizes = ({"valid": 8000, "viol": 12000, "mixed": 4000, "rec": 2000} if ck.tier == "quick"
+                 else {"valid": 80000, "viol": 120000, "mixed": 40000, "rec": 20000})
         for shift in budget_shift:
             more = resolve_streams(ck, ck.tier, sizes=sizes, seed_shift=shift)
             failures = list(more["failures"])
